@@ -112,6 +112,13 @@ static void progress_case(long idx, vrng *r, enum vtp tp)
     vdns_enable(true); vdns_set(&dp);
     xcm_attr_map_add_str(m, "dns.algorithm", vrnd_p(r, 50) ? "sequential" : "happy_eyeballs");
     xcm_attr_map_add_double(m, "tcp.connect_timeout", 0.15);
+    if (vrnd_p(r, 30) && tp != TP_UTLS_TLS && tp != TP_UTLS_UX) {
+        /* the local address is given by name as well: it has to be resolved too, and that takes the resolver a moment */
+        struct vdns_plan lp; memset(&lp, 0, sizeof lp); snprintf(lp.name, sizeof lp.name, "local.verif.test"); lp.deliver = VDNS_AFTER_MS; lp.after = 30 + (int)vrnd_n(r, 50);
+        vdns_addr4(&lp.addrs[lp.n++], "127.0.0.1"); vdns_set(&lp);
+        char la[96]; snprintf(la, sizeof la, "%s:local.verif.test:0", proto); xcm_attr_map_add_str(m, "xcm.local_addr", la);
+        cur_st = "progress(resolve-after-ms,first-candidate-silent,local-address-by-name)"; vobs("progress_cases_local_addr_by_name", 1);
+    }
     snprintf(addr, sizeof addr, "%s:slow.verif.test:%d", proto, port);
     { SC(&cl, "xcm_connect_a"); cl.s = xcm_connect_a(addr, m); vs_leave(); take_alarms("xcm_connect_a"); triple("xcm_connect_a"); }
     xcm_attr_map_destroy(m);
